@@ -1121,6 +1121,44 @@ func (x *extractor) factsAds() {
 		fu = strings.Join(parts, ";")
 	}
 	x.set("crash_findunit", fu)
+	// (C08) the accept loop of the control service does nothing with an accepted connection but start its session in a
+	// goroutine of its own (the TLS handshake, with its time-out, belongs to that goroutine)
+	al := "unknown"
+	if fd := x.fn("pkg/controlsvc/controlsvc.go", "Server", "ConnectionListener"); fd != nil {
+		var parts []string
+		ast.Inspect(fd, func(n ast.Node) bool {
+			if fs, ok := n.(*ast.ForStmt); ok {
+				seenAccept := false
+				for _, st := range fs.Body.List {
+					switch v := st.(type) {
+					case *ast.AssignStmt:
+						if strings.Contains(x.str(v), "listener.Accept()") {
+							seenAccept = true
+							parts = append(parts, "accept")
+						} else if seenAccept {
+							parts = append(parts, "sync:"+x.str(v))
+						}
+					case *ast.GoStmt:
+						if seenAccept {
+							parts = append(parts, "go:"+x.str(v.Call.Fun))
+						}
+					case *ast.ExprStmt:
+						if seenAccept {
+							parts = append(parts, "sync:"+x.str(v.X))
+						}
+					case *ast.IfStmt:
+						if seenAccept && !strings.HasPrefix(x.str(v.Cond), "err != nil") {
+							parts = append(parts, "sync-if:"+x.str(v.Cond))
+						}
+					}
+				}
+				return false
+			}
+			return true
+		})
+		al = strings.Join(parts, ";")
+	}
+	x.set("ctl_accept_loop", al)
 	// (C13) the command runner works in the directory it is given and never creates it
 	rmk := "unknown"
 	if fd := x.fn("pkg/workceptor/command.go", "", "commandRunner"); fd != nil {
